@@ -725,6 +725,7 @@ class Exec:
         if isinstance(op, ast.NotIn):
             r = models.contains(self, b, a)
             return (not r) if isinstance(r, bool) else mk_bool(z3.Not(r.t))
+        a, b = self.lower(a), self.lower(b)
         if not is_sym(a) and not is_sym(b):
             try:
                 return _CMPOPS[type(op)](a, b)
@@ -752,8 +753,21 @@ class Exec:
         b = self.eval(node.right, fr)
         return self.binop(type(node.op), a, b)
 
+    @staticmethod
+    def lower(v):
+        """constant symbolic integers / booleans back to python values"""
+        if isinstance(v, SInt) and z3.is_int_value(v.t):
+            return v.t.as_long()
+        if isinstance(v, SBool):
+            if z3.is_true(v.t):
+                return True
+            if z3.is_false(v.t):
+                return False
+        return v
+
     def binop(self, op, a, b):
         from . import models
+        a, b = self.lower(a), self.lower(b)
         if not is_sym(a) and not is_sym(b):
             try:
                 return _BINOPS[op](a, b)
